@@ -514,6 +514,10 @@ def render_one(M, fa):
             return elems('None') if v.variant == 0 else elems('Some("') + toelems(v.fields[0]) + elems('")')
         if base == 'Token':
             return display_local(M, v, '<Token as std::fmt::Debug>::fmt')
+    if kind == 'debug':
+        from . import itermodels as _im
+        try: return _im.dbg_value(M, v, ty)
+        except Unsupported: pass
     # any other type of the crate with its own (hand-written or derived) impl: run that impl on a Formatter
     tname = re.sub(r'<.*', '', base).split('::')[-1]
     if re.fullmatch(r'\w+', tname):
@@ -620,6 +624,20 @@ def _(M, a, c):
 @model('std::str::<impl str>::replace')
 def _(M, a, c):
     s, pat, to = a; out = []; tob = as_slice(to).items()
+    while isinstance(pat, Ref): pat = pat.load()
+    if not isinstance(pat, Int):
+        # a &str / String pattern: leftmost non-overlapping matches
+        pb = list(as_slice(pat).items()); items = list(as_slice(s).items()); m = len(pb); n = len(items); i = 0
+        if m == 0: raise Unsupported("str::replace with an empty pattern")
+        if any(isinstance(x, Dec) for x in items) and any(0x30 <= y.v <= 0x39 or y.v == 0x2d for y in pb if not y.sym()): raise Unsupported("str::replace: the pattern may match inside a rendered symbolic integer")
+        while i < n:
+            r = i + m <= n
+            if r:
+                r = True
+                for x, y in zip(items[i:i + m], pb): r = band(r, False if isinstance(x, Dec) else M.binop('Eq', x, y))
+            if M.branch(r): out.extend(tob); i += m
+            else: out.append(items[i]); i += 1
+        return Native('String', b=out)
     for b in as_slice(s).items():
         if isinstance(b, Dec): out.append(b); continue      # digits and '-' never match the (non-digit) pattern
         if M.branch(b.z() == pat.v): out.extend(tob)
@@ -720,7 +738,9 @@ def _(M, a, c):
 def _(M, a, c): return a[0].fields[0] if a[0].variant == 1 else a[1]
 
 # ---- maps
-def sorted_items(m): return [m[k] for k in sorted(m, key=lambda k: (0, k) if isinstance(k, bytes) else (1, repr(k)))]
+def sorted_items(m):
+    # Ord of the key type: byte strings lexicographically, integers numerically, bools false < true
+    return [m[k] for k in sorted(m, key=lambda k: (0, k) if isinstance(k, bytes) else (1, k[1]) if isinstance(k, tuple) and k[0] in ('int', 'bool') else (2, repr(k)))]
 @model_re(r'^BTreeMap::new$')
 def _(M, a, c): return Native('BTreeMap', m={})
 @model_re(r'^BTreeMap::len$')
@@ -1187,6 +1207,12 @@ def _(M, a, c):
     if fn == 'is_none_or': return (not has) or M.branch(_callf(M, a[1], [x]))
     if fn == 'as_mut': return some(Ref(o.fields, 0)) if has else NONE()
     if fn == 'unwrap_unchecked': return x
+    if fn == 'xor':
+        y = a[1]; hy = y.variant == 1
+        return o if (has and not hy) else (y if (hy and not has) else NONE())
+    if fn == 'zip':
+        y = a[1]
+        return some(Agg('tuple', 0, [x, y.fields[0]])) if (has and y.variant == 1) else NONE()
     if fn == 'as_deref':
         # Option<String> / Option<Vec<T>> / Option<Box<T>> -> Option<&str / &[T] / &T>
         if not has: return NONE()
